@@ -125,6 +125,11 @@ func TestDifferential2(t *testing.T) {
 		if p != "" {
 			addrs = append(addrs, p+":"+bchutil.VerifEncode(p, payload))
 		}
+		add("eq_rl (encode %s %s) (Ok %s)", blist([]byte(p)), blist(payload), blist([]byte(bchutil.VerifEncode(p, payload))))
+		hl := []int{20, 24, 28, 32, 40, 48, 56, 64, 19, 21, 0, 33}[rng.Intn(12)]
+		hsh := rbytes(hl, 256)
+		ty := rng.Intn(3)
+		add("eq_rl (checkEncodeCashAddress 100 %s %s (%d)%%Z) (Ok %s)", blist(hsh), blist([]byte(p)), ty, blist([]byte(bchutil.VerifCheckEncodeCashAddress(hsh, p, bchutil.AddressType(ty)))))
 	}
 	mut := func(s string) string {
 		b := []byte(s)
